@@ -16,6 +16,7 @@ NOTE = ("Trusted: bitarray C extension (replaced by a model that is differential
 
 # property -> (technique, design section, extra note) ; None = not yet claimed
 CLAIMED = {
+    'C20': ("symbolic execution (CrossHair/z3) audit of every public callable (table checked against introspection) with unbounded symbolic ints, catalogue operands incl. malformed tokens, msb0/lsb0, two-call sequences; no functional oracle", "DESIGN.md 5/C20", ""),
     'C09': ("symbolic execution (CrossHair/z3) with live lru caches: key sufficiency under solver-chosen option changes (warm vs cold twin), eviction with caches shrunk to 2, hit-equals-miss", "DESIGN.md 5/C09", ""),
     'C04': ("symbolic execution (CrossHair/z3) of derivation-route x mutation pairs with the string cache live; aliasing is observable through the model's identity semantics", "DESIGN.md 5/C04", ""),
     'C14': ("symbolic execution (CrossHair/z3) of every Array operation, one step from an arbitrary state (items + trailing bits, symbolic data), against a bit-level list model", "DESIGN.md 5/C14", ""),
